@@ -543,7 +543,7 @@ def o_sensors(inp):
             elif D is not None:
                 raw = clean + D[key] * lvl
                 exp = raw / np.linalg.norm(raw, axis=1, keepdims=True)
-                if cm.maxabs(val, exp) > 1e-9:
+                if cm.maxabs(val, exp) > 1e-12 + 1e-9 * min(1.0, lvl / sc):
                     return {'tag': f'{E}.generate/mag-normalised-noise', 'observed': cm.maxabs(val, exp)}
             continue
         res = val - clean
@@ -553,7 +553,7 @@ def o_sensors(inp):
                 return {'tag': f'{E}.generate/{name}-zero-noise-not-body-frame-reference', 'observed': val[i], 'expected': clean[i],
                         'note': f'row {i} of {n}'}
         elif D is not None:
-            if cm.maxabs(res, D[key] * lvl) > 1e-9 * max(sc, lvl):
+            if cm.maxabs(res, D[key] * lvl) > 1e-13 * sc + 1e-9 * lvl:     # far below the level even when level << |ref|
                 # the draws may legitimately be consumed in another order: fall back to a distribution bound
                 z = res / lvl
                 if abs(z.mean()) > 6 / math.sqrt(z.size) or not (1 - 6 / math.sqrt(2 * z.size) < z.std() < 1 + 6 / math.sqrt(2 * z.size)) \
@@ -595,17 +595,30 @@ def o_sensors(inp):
                     'note': f'row {i}; reported bias {bias.tolist()}'}
     elif D is not None and sg_req is not None:
         expb = (D['u'] - 0.5) * P / 200.0 * (1.0 if deg else (math.pi / 180.0) ** 2)
-        if cm.maxabs(bias, expb) > 1e-9 * max(1e-300, blim) and cm.maxabs(res, D['ng'] * float(sg_req) * nsc) > 1e-9 * max(gsc, float(sg_req)):
+        if cm.maxabs(bias, expb) > 1e-9 * max(1e-300, blim) and cm.maxabs(res, D['ng'] * float(sg_req) * nsc) > (1e-13 * gsc + 1e-9 * float(sg_req) * nsc):
             z = res / (float(sg_req) * nsc)
             if abs(z.mean()) > 6 / math.sqrt(z.size) or not (1 - 6 / math.sqrt(2 * z.size) < z.std() < 1 + 6 / math.sqrt(2 * z.size)):
                 return {'tag': f'{E}.generate/gyr-noise-or-bias-not-the-reported', 'observed': [float(z.mean()), float(z.std())], 'expected': [0.0, 1.0]}
-        elif cm.maxabs(res, D['ng'] * float(sg_req) * nsc) > 1e-9 * max(gsc, float(sg_req)):
+        elif cm.maxabs(res, D['ng'] * float(sg_req) * nsc) > (1e-13 * gsc + 1e-9 * float(sg_req) * nsc):
             i = int(np.argmax(np.abs(res - D['ng'] * float(sg_req) * nsc).max(axis=1)))
             return {'tag': f'{E}.generate/reported-bias-is-not-the-applied-bias', 'observed': corrected[i],
                     'expected': unit * av[i] + D['ng'][i] * float(sg_req) * nsc, 'note': f'row {i}'}
     # ---- integrating the bias-corrected, noise-free gyroscope from the first attitude reproduces the trajectory
     if sg_req is not None and float(sg_req) == 0.0:
         th = np.array([_qangle(qs[t - 1], qs[t]) for t in range(1, n)])
+        smooth = (given and inp['traj'] not in ('random-unit', 'int-axes') and not inp.get('flip')) or (not given and n >= 100)
+        if th.size and th.max() <= 2.5 and smooth:
+            # consecutive attitudes less than 2.5 rad apart: the reported quaternions must not jump to the antipodal
+            # representative, because angular_velocities is NOT sign-robust (vec(q* (-q')) = -vec(q* q')): the gyroscope
+            # would be minus the rate of the attitudes.  The unchanged tree satisfies sign continuity of the reported
+            # quaternions on the random route (half-angle quaternions of continuous, unwrapped angles) and for given
+            # trajectories that are sign-continuous themselves.
+            dots = np.einsum('ij,ij->i', qs[:-1], qs[1:])
+            t = int(np.argmin(dots))
+            if dots[t] < 0.0:
+                wrob = -2.0 / dt * cm.qmul(cm.qconj(qs[t]), qs[t + 1])[1:]
+                return {'tag': f'{E}.gyroscopes/minus-the-rate-of-the-attitudes-at-a-quaternion-sign-jump', 'observed': corrected[t + 1] / unit,
+                        'expected': wrob, 'note': f'samples {t}->{t + 1} of {n}: q.q\' = {dots[t]:.4g} although the attitudes are {th[t]:.3g} rad apart'}
         if th.size and th.max() <= 1.0 and not inp.get('flip'):     # sign jumps: the quaternion curve has no bounded rate
             est = ahrs.filters.AngularRate(gyr=corrected / unit, q0=qs[0].copy(), frequency=float(freq))
             Qh = np.asarray(est.Q, float)
@@ -633,6 +646,7 @@ KEYWORDS = {
     'acc_noise': "both routes; search: 0, 0.05, default; traced symbolically",
     'mag_noise': "both routes; search: 0, 40, 3e5, 1e6, default; traced symbolically",
     'span': "random route (ignored by the given route, where it is passed as a no-op); search: absent, (0,pi/2), [-pi/2,pi/2], (-0.3,0.3), "
+            "wide spans crossing +-pi / more than one turn (-2pi,2pi), (-3pi,3pi), (pi/2,3pi), (-pi,2.5pi) on N >= 400 with in_degrees both ways, "
             "(-pi,pi) with every clause incl. ang_vel-vs-quaternions and re-integration; clause: ang_pos inside hull(span, 0)",
     'yaw': "random route (no-op on the given route); search: absent, 0.0, 37.5, -120.0, 90 (int) with every clause incl. "
            "ang_vel-vs-reported-quaternions and re-integration; clause: ang_pos[:,2] = yaw*DEG2RAD; traced symbolically: C20_rand_yaw",
@@ -738,6 +752,44 @@ def search(ctx, scale):
         for span in spans[1:]:
             for deg in (False, True):
                 rand(pick([51, 64, 100, 128, 200]), (0.0, 0.0, 1e6), deg, pick([False, True]), yaw=yaw, span=span)
+    # unit systems: magnetic reference in tesla / gauss / nT, gravity in g / m s^-2, noise levels over 15 decades in those
+    # units (at least 1e-9 of the reference so that it is far above the rounding of the sample): the spread of
+    # sample - R^T ref must be the requested level - exactly zero only for level 0
+    munits = [('tesla', 1e-9), ('gauss', 1e-5), ('nT', 1.0)]
+    gunits = [('g', 1.0 / 9.80665), ('m/s2', 1.0)]
+    M = _mod()
+
+    def unit_case(route):
+        mu, gu = pick(munits), pick(gunits)
+        mref = (np.asarray(M.REFERENCE_MAGNETIC_VECTOR, float) if r.integers(0, 2) else r.standard_normal(3) * 3e4) * mu[1]
+        gref = np.array([0.0, 0.0, 9.80665]) * gu[1] if r.integers(0, 2) else r.standard_normal(3) * 9.8 * gu[1]
+        def level(ref):
+            nr = float(np.linalg.norm(ref))
+            lv = float(10 ** r.uniform(-12, 3)) if r.integers(0, 2) else nr * float(10 ** r.uniform(-8.5, 1))
+            return max(lv, 1e-9 * nr)
+        sm, sa = level(mref), level(gref)
+        if r.integers(0, 6) == 0:
+            sm = 0.0
+        if r.integers(0, 6) == 0:
+            sa = 0.0
+        sg = pick([0.0, 1e-9, 1e-6, 1e-3, 0.5])
+        common = {'sg': sg, 'sa': sa, 'sm': sm, 'in_degrees': pick([False, True]), 'normalized_mag': bool(r.integers(0, 4) == 0),
+                  'mref': mref.tolist(), 'gref': gref.tolist(), 'units': [mu[0], gu[0]], 'seed': int(r.integers(1, 2**31)),
+                  'freq': pick([100.0, 50.0])}
+        if route == 'given':
+            inp = {'kind': 'given', 'traj': pick(['const-axis', 'smooth', 'stationary']), 'n': int(pick([64, 200, 400])),
+                   'tseed': int(r.integers(1, 2**31)), 'theta': 0.05, **common}
+        else:
+            inp = {'kind': 'random', 'n': int(pick([200, 400])), **common}
+        ctx.check('sensors', inp, sens_call(inp), nontrivial_key=(route, 'units', inp['seed']))
+
+    for _ in range(30 * scale):
+        unit_case('given'); unit_case('random')
+    # spans that make the angles cross +-pi and exceed one turn, on records long enough for crossings to occur, noise-free gyro
+    wide = [[-2 * math.pi, 2 * math.pi], [-3 * math.pi, 3 * math.pi], [math.pi / 2, 3 * math.pi], [-math.pi, 2.5 * math.pi]]
+    for k in range(12 * scale):
+        rand(pick([400, 500, 800]), (0.0, pick([0.0, 0.05]), 1e6), pick([False, True]), pick([False, True]),
+             yaw=None if k % 4 else 30.0, span=wide[k % len(wide)])
     for _ in range(300 * scale):
         n = pick(sizes) if r.integers(0, 4) else int(r.integers(10, 300))
         given(n, pick(levels), pick([False, True]), pick([False, True]), pick(trajs))
